@@ -2,7 +2,7 @@
    BUint / BInt act on the exact bit pattern of the value. *)
 From Bnum Require Import Base Prim.
 From Bnum.Model Require Import Core Shift Bits.
-From Bnum.Proofs Require Import BitAddr BitsLemmas Cmp.
+From Bnum.Proofs Require Import BitAddrC06 BitsLemmas Cmp.
 
 (* ================= logic ================= *)
 
